@@ -18,6 +18,9 @@ CLAIMED["C14"] = dict(technique="constant-table pairing of DEC private modes wit
 CLAIMED["C13"] = dict(technique="must-hold lockset dataflow with caller-holds-lock summaries + belief rule (Engler) + dominance + writer census",
   text="Decides structural necessary conditions of non-interference: lock discipline inferred per run for every lock-owning struct except Terminal (7 fields / 40 accesses today), boundary-chunk copies made under the lock, every post-spawn return of scan joins the workers, one slab per worker, closed writer sets for Item fields and atomic-only access to Reader.event. Does not decide equality with a sequential filter nor races on Terminal.",
   note="Instance-insensitive lock identity (type.field path); Terminal excluded by stated limit; go/ssa trusted.")
+CLAIMED["C04"] = dict(technique="constant inequalities from types/consts + cross-configuration sibling agreement (amd64 vs arm64 load, build-constraint evaluation over all GOARCH) + path-condition comparison of sort/merge guards + value provenance",
+  text="Decides structural necessary conditions of rank order: key capacity vs. accepted criteria and slot layout, agreement of the two build-tagged comparators (incl. endianness and polarity), per-partition sort and k-way merge sharing comparator/tac/sorted condition, score first, partial results placed by partition index. Does not decide rank key values nor pass-through index arithmetic.",
+  note="Loads /repo twice (linux/amd64 and linux/arm64); byte order per GOARCH is a fixed table; `go tool dist list` supplies the GOARCH universe.")
 NA = {
 }
 ALL = ["C%02d" % i for i in range(1, 21)]
